@@ -58,7 +58,7 @@ End == /\ l <= Len(Trace) /\ Trace[l].ev = "end"
              IF ~skip /\ (obs # modelN \/ e.bad # 0)
                THEN Reject("view-mismatch", [model |-> modelN])
              \* conformance of the report
-             ELSE IF ~skip /\ e.kind # "crash" /\ (~Finished(cfg, st) \/ e.reported # Reported(st))
+             ELSE IF ~skip /\ e.kind # "crash" /\ (~Finished(cfg, st) \/ e.reported \notin Reports(st))
                THEN Reject("report-mismatch", [finished |-> Finished(cfg, st), reported |-> Reported(st)])
              \* the property
              ELSE IF e.reported = "ok" /\ obs # newN
